@@ -20,6 +20,18 @@ fn capi_accepts(name: &str) -> &'static str {
     if p.is_null() { "null" } else { unsafe { ldpc_toolbox_decoder_dtor(p) }; "handle" }
 }
 
+/// which implementation does the REAL command-line parser select for `ber --decoder <s>`? ("" when the command line is rejected)
+fn cli_selects(s: &str) -> String {
+    use clap::Parser;
+    let r = guarded(|| ldpc_toolbox::cli::Args::try_parse_from(["ldpc-toolbox", "ber", "--decoder", s, "--min-ebn0", "0.0", "--max-ebn0", "1.0",
+        "--step-ebn0", "1.0", "code.alist"]).ok().map(|a| format!("{a:?}")));
+    match r {
+        Ok(None) => String::new(),
+        Ok(Some(dbg)) => dbg.split("decoder: ").nth(1).and_then(|t| t.split([',', ' ', '}']).next()).unwrap_or("?").to_string(),
+        Err(m) => format!("panic:{m}"),
+    }
+}
+
 fn fingerprint(mut dec: Box<dyn ldpc_toolbox::decoder::LdpcDecoder>, family: &[(Vec<Vec<usize>>, usize, Vec<f64>, usize)], mk: &dyn Fn(&[Vec<usize>], usize) -> Box<dyn ldpc_toolbox::decoder::LdpcDecoder>) -> (String, Vec<String>) {
     // one decoder per matrix (the family is grouped by matrix); per-case digests are kept for the separation test
     let mut all = String::new();
@@ -50,7 +62,7 @@ pub fn generate(a: &Args) {
         let parsed = name.parse::<DecoderImplementation>();
         let show = parsed.as_ref().map(|d| d.to_string()).unwrap_or_default();
         let clap = parsed.as_ref().ok().and_then(|d| d.to_possible_value()).map(|p| p.get_name().to_string()).unwrap_or_default();
-        out.ev("Name", "ok", json!({"str": name, "hl": hl, "rest": rest, "parse_ok": parsed.is_ok(), "show": show, "clap": clap, "capi": capi_accepts(name)}));
+        out.ev("Name", "ok", json!({"str": name, "hl": hl, "rest": rest, "parse_ok": parsed.is_ok(), "show": show, "clap": clap, "capi": capi_accepts(name), "cli": cli_selects(name)}));
     }
     out.new_case();
     let variants: Vec<String> = DecoderImplementation::value_variants().iter()
@@ -79,7 +91,7 @@ pub fn generate(a: &Args) {
     non.dedup();
     for s in non.iter().filter(|s| !NAMES.contains(&s.as_str())) {
         out.new_case();
-        out.ev("NonMember", "ok", json!({"str": s, "parse_ok": s.parse::<DecoderImplementation>().is_ok(), "capi": capi_accepts(s)}));
+        out.ev("NonMember", "ok", json!({"str": s, "parse_ok": s.parse::<DecoderImplementation>().is_ok(), "capi": capi_accepts(s), "cli": cli_selects(s)}));
     }
     // behaviour: a separating family, grouped by matrix
     let mut family: Vec<(Vec<Vec<usize>>, usize, Vec<f64>, usize)> = vec![];
